@@ -1313,6 +1313,8 @@ class Interp:
         present it as the equivalent iteration pipeline so that `for`-loop and iterator-chain formulations give one grammar"""
         if v[0] != 'acc':
             return v
+        if self.accs[v[1]].get('ts'):
+            return self.ts_view(v)
         ent = self.accs[v[1]]['entries']
         cur = {l[0] for l in self.frame['loops']}
         if len(ent) != 1:
@@ -1333,6 +1335,33 @@ class Interp:
                 flat.append(c)
         flat = [c for c in flat if not any(c == o or (o[0] == 'and' and c in o[1]) for o in outer)]
         return ('star', src, eid, e['val'], list(conds) + flat, bool(e.get('flat')))
+
+    def ts_view(self, v):
+        """a TokenStream built by appending (`extend`) is the template that interpolates the appended pieces in order: a piece appended
+        inside a finished loop becomes a repetition `#(#piece)*`, a piece appended under a condition an optional hole"""
+        a = self.accs[v[1]]
+        cur = {l[0] for l in self.frame['loops']}
+        outer = self.frame['conds']
+        items = []
+        for i, e in enumerate(a['entries']):
+            loops = [l for l in e['loops'] if l[0] not in cur]
+            extra = [c for c in (e['cond'][1] if e['cond'][0] == 'and' else [e['cond']]) if c != TRUE and not any(c == o for o in outer)]
+            flat = []
+            for c in extra:
+                flat.extend(c[1] if c[0] == 'and' else [c])
+            flat = [c for c in flat if not any(c == o or (o[0] == 'and' and c in o[1]) for o in outer)]
+            if len(loops) > 1:
+                return v
+            if len(loops) == 1:
+                eid, src, conds = loops[0]
+                items.append(('rep', [('hole', f'piece{i}', ('star', src, eid, e['val'], list(conds) + flat, bool(e.get('flat'))))], ''))
+            elif e.get('flat'):
+                items.append(('rep', [('hole', f'piece{i}', e['val'])], ''))
+            else:
+                val = e['val'] if not flat else ('opt', flat[0] if len(flat) == 1 else ('and', flat), e['val'])
+                items.append(('hole', f'piece{i}', val))
+        self.templates.setdefault(a['site'], {'fn': a['callee'], 'line': a['line'], 'text': self.tmpl_text(items)})
+        return ('tmpl', a['site'], items, a['callee'])
 
     def tmpl_items(self, ts, env, node):
         items = []
@@ -1415,6 +1444,12 @@ class Interp:
                     self.accs[aid] = {'entries': [], 'fn': self.frame['fn'], 'name': let_name, 'line': e['line']}
                     return ('acc', aid)
                 return ('new', segs[-2], self.fresh('c'), tuple(l[0] for l in self.frame['loops']), self.frame['callee'])
+            if last in ('new', 'default') and len(segs) >= 2 and segs[-2] == 'TokenStream' and not args and let_name is not None and let_mut:
+                # a token stream that is appended to (`ts.extend(quote!(..))`): an accumulator whose view is a synthetic template
+                aid = self.fresh('acc')
+                self.accs[aid] = {'entries': [], 'fn': self.frame['fn'], 'name': let_name, 'line': e['line'], 'ts': True,
+                                  'site': f"{self.c.relfile(self.c.fns[self.frame['callee']]['file'])}:{e['line']}", 'callee': self.frame['callee']}
+                return ('acc', aid)
             if last == 'new' and len(segs) >= 2 and segs[-2] == 'Ident':
                 return ('call', 'Ident::new', args[:1])
             if last in ('call_site',) and len(segs) >= 2 and segs[-2] == 'Span':
@@ -1435,6 +1470,16 @@ class Interp:
             self.inline_calls.append((self.frame['callee'], fn[1], 0))
             return self.call_fn(fn[1], args)
         return ('callv', fn, args)
+
+    def apply_detached(self, clo, args):
+        """apply a closure term outside any function evaluation (used by rules to read off what a key / comparison closure computes)"""
+        fr = {'fn': '$detached', 'callee': '$detached', 'conds': [], 'loops': [], 'returns': [], 'mod': clo[3], 'env_stack': [], 'nconds0': 0}
+        self.frames.append(fr)
+        try:
+            return self.apply(clo, args)
+        finally:
+            self.frames.pop()
+            self.effects.pop('$detached', None)
 
     def apply(self, clo, args):
         """apply a closure term to argument terms"""
@@ -1540,9 +1585,10 @@ class Interp:
                                                   'fn': self.frame['callee']})
             return ('tuple', [])
         if m == 'extend' and recv[0] == 'acc' and len(e['args']) == 1:
-            v = self.expr(e['args'][0], env)
+            v = self.acc_view(self.expr(e['args'][0], env))
+            ts = self.accs[recv[1]].get('ts')
             self.accs[recv[1]]['entries'].append({'cond': self.pathcond(), 'val': v, 'loops': list(self.frame['loops']), 'line': e['line'],
-                                                  'fn': self.frame['callee'], 'flat': True})
+                                                  'fn': self.frame['callee'], 'flat': (v[0] in ('star', 'reorder', 'acc')) if ts else True})
             return ('tuple', [])
         if m in ('push', 'insert', 'extend', 'push_str', 'remove', 'clear', 'retain', 'update'):
             args = [self.expr(a, env) for a in e['args']]
@@ -1822,6 +1868,66 @@ def walk(t, fn, memo=None):
             st.extend(reversed(x))
         elif isinstance(x, dict):
             st.extend(reversed(list(x.values())))
+
+
+def repetition_anchor(ogp, pred, own_only=False):
+    """[(q, template, star)]: for every quote! template whose text satisfies `pred` (judged at its definition site), the function q and the
+    repetition (star term in q's summary) that produces it.  The repetition is looked for in the function that holds the template; if that
+    function merely builds one item (a helper called once per element), in its nearest caller (syntactic call graph, breadth first, up to three
+    levels) in whose summary the helper is inlined.  `template` is the instance inside q's summary."""
+    out = []
+    seen_sites = set()
+    cg = ogp.crate.call_graph()
+    callers = {}
+    for a, bs in cg.items():
+        for b in bs:
+            callers.setdefault(b, set()).add(a)
+    # closures / function values passed by name are edges of the syntactic graph as well (Path scan), so `callers` sees `.map(helper)`
+    for q0 in sorted(ogp.summaries):
+        v0 = ogp.summaries[q0]
+        if v0 is None:
+            continue
+        for t0 in find_templates(v0, lambda t: t[3] == q0 and pred(t)):
+            site = (t0[1], t0[3])
+            if site in seen_sites:
+                continue
+            seen_sites.add(site)
+            level = [q0]
+            visited = {q0}
+            found = False
+            for depth in range(4):
+                for q in sorted(level):
+                    v = ogp.summaries.get(q)
+                    if v is None:
+                        continue
+                    insts = find_templates(v, lambda t: (t[1], t[3]) == site)
+                    for ti in insts:
+                        stars = []
+                        walk(v, lambda x: stars.append(x) if x[0] == 'star' and find_templates(x[3], lambda y: y is ti) else None)
+                        if stars:
+                            # innermost repetition holding the template
+                            inner = [s_ for s_ in stars if not any(o is not s_ and _contains(s_[3], o) for o in stars)]
+                            out.append((q, ti, inner[0]))
+                            found = True
+                            break
+                    if found:
+                        break
+                if found or own_only:
+                    break
+                nxt = set()
+                for q in level:
+                    nxt |= callers.get(q, set()) - visited
+                visited |= nxt
+                level = sorted(nxt)
+                if not level:
+                    break
+    return out
+
+
+def _contains(term, sub):
+    hit = []
+    walk(term, lambda x: hit.append(1) if x is sub else None)
+    return bool(hit)
 
 
 def find_templates(t, pred):
